@@ -199,6 +199,9 @@ Print Assumptions C05_accounting_invariant.
 
 (* ---- the executable monitor (the property as a boolean over observed calls, outcomes and getter values;
    Run/C05.v) accepts every trace of the model, and the diff of the model with itself is empty.
+   The monitor also tracks the ledger and every approve's live_until from the call inputs: across any Advance an
+   allowance must read unchanged up to its live_until and 0 after it, balances, supply, decimals() and
+   query_asset() must read unchanged (state must not lapse with time).
    wf_hdr: offset and asset decimals are non-negative (u32), the observed universe is not empty;
    wf_call_obs n: wf_call and the owner whose balance is read lies in the observed universe. ---- *)
 Theorem C05_monitor_accepts_model : forall c n now0 cs,
